@@ -1602,6 +1602,14 @@ def gen_algebra(rng, want_density):
                 st = {"op": "pow", "a": a, "k": rfloat(rng, 0.1, 3.5), "j": rfloat(rng, 0.2, 2.5, 2)}
         try:
             new = push(st)
+            if st["op"] in ("smul", "sdiv", "pow", "mul", "div") and rng.random() < 0.5:
+                # the operand is used again after it took part in an operation: messages are values, an
+                # operation leaves its operands as they were (natural form, product with itself)
+                ra2 = regs[st["a"]]
+                if fam_of(ra2) == "normal" and not isinstance(ra2, TransformedMessage):
+                    push({"op": "tonat", "a": st["a"]})
+                else:
+                    push({"op": "pow", "a": st["a"], "k": 1.0, "j": 1.0})
         except Exception:  # noqa: BLE001  (kept in the program: run_real reports it)
             prog.append(st)
             return {"prog": prog}
